@@ -88,6 +88,8 @@ def check_error_ord(ctx, rule):
 
 
 def check(ctx):
+    from .ctors import check_table
+    check_table(ctx, "C15", "R15.6")
     F = ctx.F
     # ---- R15.1 Score ----------------------------------------------------
     adt = F.adts.get(TR + "Score")
